@@ -268,9 +268,14 @@ class Interface(object):
 
         key = method.gen_interface_key(s)
         if key in self.method_id_map:
-            c = self.method_id_map[key].parent_class
+            other = self.method_id_map[key]
+            c = other.parent_class
             if c is None:
-                pass
+                if other is not method:
+                    # a second method under the same public name of the same
+                    # service: it would be dropped silently
+                    raise ValueError("The message %r is defined more than "
+                                           "once in '%s'" % (method.name, key))
 
             elif c is s:
                 pass
